@@ -277,7 +277,9 @@ func runC14Concurrent(c *fw.Ctx, i int) {
 	mixes := [][]string{{"icmp4", "icmp4", "icmp4", "udp4"}, {"udp4", "udp4", "udp6", "icmp6"}, {"syn", "syn", "synP", "icmp4"}, {"sackR", "sackR", "udp4", "syn"},
 		{"udp6", "udp6", "udp6", "icmp6"}, {"synP", "synP", "synPR", "udp6"},
 		// three SACK runs at once whose targets do not permit SACK: all three take the "not supported" exit together
-		{"sackR", "sackR", "sackS", "syn"}}
+		{"sackR", "sackR", "sackS", "syn"},
+		// ICMP over IPv6 three times over a long path: the receivers decode quoted echo requests side by side
+		{"icmp6", "icmp6", "icmp6", "udp6"}}
 	mix := mixes[i%len(mixes)]
 	// the last TTL grows from case to case: whatever a variant sizes by the TTL (payloads, tables) is sized anew while its
 	// siblings run
@@ -310,7 +312,7 @@ func runC14Concurrent(c *fw.Ctx, i int) {
 	}
 	env.modelFor = func(k int, e *simEnv) *pathModel {
 		dist := 4
-		if m := i % len(mixes); m == 4 || m == 5 {
+		if m := i % len(mixes); m == 4 || m == 5 || m == 7 {
 			dist = last - 1 // a long path: every TTL of the range is probed
 		}
 		m := flowPath(k, e, dist, true, 200*time.Microsecond)
@@ -577,6 +579,13 @@ func runC14Server(c *fw.Ctx, i int) {
 			}
 			q := url.Values{"target": {target.String()}, "protocol": {proto}, "port": {"33434"}, "max-ttl": {"4"}, "timeout": {to}, "traceroute-queries": {"2"},
 				"e2e-queries": {"2"}, "reverse-dns": {fmt.Sprint(k%2 == 0)}, "skip-private-hops": {fmt.Sprint(k%3 == 0)}}
+			if k%2 == 1 {
+				// parameters a client may send along that the handler does not know (today): whatever it does with them, it
+				// does while the other requests' runs are in flight
+				q.Set("verbose", "true")
+				q.Set("log-level", "trace")
+				q.Set("debug", "1")
+			}
 			rec := httptest.NewRecorder()
 			srv.TracerouteHandler(rec, httptest.NewRequest("GET", "/traceroute?"+q.Encode(), nil))
 			codes[k] = rec.Code
